@@ -237,7 +237,7 @@ func runC14(c *Ctx) {
 	R := c.R
 	R.Rules["S.thresholds"] = "the re-request test compares now-5s with the transfer's last-progress time, the expiry test compares now-60s with its creation time (constants folded from the SSA); the creation time is written only where the record is created"
 	R.Rules["S.missing-list"] = "the list named in the 0x8003 is built afresh for every transfer by one ascending index loop over that transfer's slot table appending index+1 exactly for empty slots; count = len(list); the original serial is the stored first header's; the frame is encoded with that header"
-	R.Rules["S.rate-limit"] = "every path that emits a re-request stores time.Now() into the last-progress time afterwards"
+	R.Rules["S.rate-limit"] = "every path that emits a re-request stores time.Now() into the last-progress time afterwards, and so does every path that stores an arriving packet into its slot (idle time is measured from the last arrival)"
 	R.Rules["S.expiry"] = "an expired transfer is removed from both maps under its own key, before re-requests are built in the same pass; the record is created by the packet numbered 1 with that packet's header"
 	R.Rules["S.route"] = "a re-request built by the reader reaches the writer through the re-request channel and is written by a function that stamps a fresh serial (C06 S.serial-per-write)"
 	var supp, expire []timeTest
@@ -620,6 +620,60 @@ func runC14(c *Ctx) {
 			R.Add("S.expiry", shortFn(cp)+" / the record (creation time, first header) is created by packet 1", c.P.RelPos(cp.Pos()), st, d)
 		}
 	}
+	// ---- progress: every stored packet refreshes the last-progress time (the 5 s are counted from the last arrival)
+	{
+		cp := c.P.Method("service", "packageParse", "completePack")
+		ok, d := false, "no slot store found in completePack"
+		if cp != nil {
+			for _, b := range cp.Blocks {
+				for _, ins := range b.Instrs {
+					st, isSt := ins.(*ssa.Store)
+					if !isSt {
+						continue
+					}
+					ia, isIA := st.Addr.(*ssa.IndexAddr)
+					if !isIA {
+						continue
+					}
+					toTable := false
+					for _, o := range c.origins(ia.X, nil, nil) {
+						if o.Kind == "field" && strings.HasSuffix(o.Name, ".subcontractingRecord") {
+							toTable = true
+						}
+					}
+					if !toTable {
+						continue
+					}
+					hit := pathsFromMustHit(st, func(x ssa.Instruction) bool {
+						s2, isS := x.(*ssa.Store)
+						if !isS {
+							return false
+						}
+						fa, isFA := s2.Addr.(*ssa.FieldAddr)
+						if !isFA {
+							return false
+						}
+						stt := fa.X.Type().Underlying().(*types.Pointer).Elem().Underlying().(*types.Struct)
+						if stt.Field(fa.Field).Name() != "updateTime" {
+							return false
+						}
+						call, isC := s2.Val.(*ssa.Call)
+						return isC && call.Call.StaticCallee() != nil && call.Call.StaticCallee().String() == "time.Now"
+					})
+					if hit {
+						ok, d = true, ""
+					} else {
+						ok, d = false, "a packet is stored into its slot on a path that does not refresh the transfer's last-progress time: the 5 s idle period is counted from an older event and a terminal that is still sending gets re-requests"
+					}
+				}
+			}
+		}
+		st := report.Discharged
+		if !ok {
+			st = report.Violated
+		}
+		R.Add("S.rate-limit", "(*service.packageParse).completePack / storing a packet refreshes the last-progress time", "", st, d)
+	}
 	// ---- route
 	{
 		reader := c.P.Method("service", "connection", "reader")
@@ -674,7 +728,7 @@ func runC14(c *Ctx) {
 	c.AddE1(res, false)
 	R.Require("S.thresholds", 3, "")
 	R.Require("S.missing-list", 4, "")
-	R.Require("S.rate-limit", 1, "")
+	R.Require("S.rate-limit", 2, "")
 	R.Require("S.expiry", 3, "")
 	R.Require("S.route", 2, "")
 	R.Explain = "The wall-clock behaviour (5 s idle, 60 s expiry measured in real time) is not decided. Decided for all inputs: which stored time each threshold is compared with and the folded constants; that the creation time is never rewritten; that the missing list is rebuilt per transfer by an ascending scan of that transfer's slot table naming exactly the empty slots; count / original serial / addressing of the 0x8003; the rate-limit store; expiry removes both map entries before re-requests are built; routing to the writer."
